@@ -8,7 +8,7 @@
     module accounts, and block boundaries running the end blocker) from ANY genesis ledger in
     which the farm account is empty — no bound on the number of pools, farmers, steps or on
     amounts. *)
-From Irismod Require Import Farm.Model Farm.Check Farm.Proofs.
+From Irismod Require Import Farm.Model Farm.Check Farm.Proofs Farm.Sound.
 
 (** In every reachable state the stakes recorded for the farmers of a pool add up to the pool's
     recorded total. *)
@@ -62,6 +62,18 @@ Theorem unstake_never_fails :
     exists s' rw, unstake s who pid (p_lpt p) amt = Done s' rw.
 Proof. exact unstake_never_fails_lemma. Qed.
 Print Assumptions unstake_never_fails.
+
+(** The decidable C05 predicate that the check evaluates on the IMPLEMENTATION's observations ([c05_step]: clauses
+    1 sum of stakes, 2 escrow, 3/6 unstake within the stake succeeds, 5 rewards = accrued, 4 principal and record)
+    holds of the MODEL's own observations at every step of every history, for the four observed actors: the
+    checker answers 0.  So an alarm on clause 1-6 always means the implementation left the model or the property. *)
+Theorem checker_predicate_holds_on_the_model :
+  forall (s : state) (st : step) (oc0 : outcome) (rw0 : list (denom * Z)),
+    reachable s -> valid_step st -> (match st with Msg m => In (sender m) actors | NextBlock => True end) ->
+    c05_step (height s) (obs_of s oc0 rw0) st
+             (obs_of (fst (fst (exec_step s st))) (snd (fst (exec_step s st))) (snd (exec_step s st))) = 0.
+Proof. intros s st oc0 rw0 R. exact (model_passes_c05 s st oc0 rw0 (reachable_inv _ R)). Qed.
+Print Assumptions checker_predicate_holds_on_the_model.
 
 (** The invariant behind the five statements, for reference: preserved by every step. *)
 Theorem invariant_preserved :
